@@ -2058,6 +2058,13 @@ ldb_open(const char *dbname, const ldb_dbopt_t *options, ldb_t **dbptr) {
     ldb_edit_set_log_number(&edit, db->logfile_number);
 
     rc = ldb_versions_apply(db->versions, &edit, &db->mutex);
+
+    /* Make the switch to the new MANIFEST (the rename of CURRENT) durable
+       before the replayed logs, which only the old MANIFEST accounts
+       for, are deleted below. On failure nothing has been deleted and
+       both the old and the new descriptor are intact. */
+    if (rc == LDB_OK)
+      rc = ldb_sync_dir(db->dbname);
   }
 
   if (rc == LDB_OK) {
